@@ -504,10 +504,11 @@ def modproc_rows(pp_text, ifaces, modprocs, protos, consts):
                     size = -1
                     dd = decls.get(A)
                     if dd and re.match(r"CHARACTER", dd[0], re.I):
-                        sm = re.search(r"\b%s\s*\(([^()]*)\)" % A, "\n".join(body), re.I)
+                        dl = [l for l in body if DECL_RE.match(l) and re.search(r"\b%s\s*\(" % A, l, re.I)]
+                        sm = call_args(dl[0], A) if dl else None           # the (balanced) array bound of the declaration
                         size = -2
-                        if sm:
-                            e = re.sub(r"\bMAX_LEN\b", "32", sm.group(1), flags=re.I)
+                        if sm and len(sm) == 1:
+                            e = re.sub(r"\bMAX_LEN\b", "32", sm[0], flags=re.I)
                             if re.fullmatch(r"[\d+*()\s]+", e):
                                 size = int(eval(e, {"__builtins__": {}}, {}))
                     elif dd and re.sub(r"\s+", "", dd[0]).upper() == "TYPE(C_PTR)":
